@@ -52,7 +52,7 @@ def gen_cases(tier, seed):
                     cases.append({"type": "cancel", "kind": kind, "op": op, "pre": pre, "latency": lat, "seed": seed})
     # two clients at once: consumer A shuts down while the holder of one of its messages settles it and consumer B takes it
     for kind in KINDS:
-        for settle_op in ("reject", "requeue"):
+        for settle_op in ("reject", "requeue", "ack", "nack"):
             for victim in ((3, 1) if tier == "quick" else (3, 2, 1, 0)):
                 cases.append({"type": "concurrent", "kind": kind, "op": settle_op, "victim": victim, "offsets": 16 if tier == "quick" else 32, "seed": seed,
                               "latency": None if kind == "mem" else 0.002})
@@ -787,8 +787,12 @@ async def concurrent_scenario(loop, case, off, first, out, stats):
             await delay(off if first == "finish" else 0)
             if case["op"] == "reject":
                 await mb.reject(keys[victim])
-            else:
+            elif case["op"] == "requeue":
                 await mb.requeue(keys[victim], "p-new", P())
+            elif case["op"] == "ack":
+                await mb.ack(keys[victim])
+            else:
+                await mb.nack(keys[victim])
             try:
                 k, pl, _pr = await asyncio.wait_for(B.consume(), 3.0)
             except asyncio.TimeoutError:
@@ -819,6 +823,15 @@ async def concurrent_scenario(loop, case, off, first, out, stats):
         seen = collections.Counter(d[1] for d in drained)
         want = collections.Counter(i for i in ids if i != got.get("id"))
         stats["drain_audits"] += 1
+        if case["op"] in ("ack", "nack") and got.get("id") != victim:
+            # the holder's ack / nack either took effect (gone / dead-lettered once) or lost the race against finish(), which had
+            # already returned the message (then it is deliverable once): nothing else
+            cats = sorted(d[0] for d in drained if d[1] == victim)
+            legal = [[], ["NORMAL"]] if case["op"] == "ack" else [["DEAD"], ["NORMAL"]]
+            if cats not in legal:
+                out.append(V("duplicated" if len(cats) > 1 else "lost", kind, f"{ctx}/victim-at-{'+'.join(cats) or 'nowhere'}", f"offset {off} ({first} first): after {case['op']}({victim}) next to A.finish() the message is at {cats} (legal: {legal})"))
+            seen[victim] = want[victim] = 0
+            seen, want = +seen, +want
         if seen != want:
             extra = sorted((seen - want).elements())
             missing = sorted((want - seen).elements())
